@@ -9,22 +9,41 @@ Local Open Scope Z_scope.
 
 Lemma bridge_encode_uint8 v size off : (v < 2^8)%N -> (off < 2^8)%N ->
   g_cbor_encode_uint8 (Z.of_N v) (Z.of_N size) (Z.of_N off) = zres (enc_uint8 v size off).
-Proof. intros Hv Ho. unfold g_cbor_encode_uint8, enc_uint8, zres, efail, indexed. cbv zeta. norm. splits; cbn [idx map fst snd app]; repeat f_equal; pows; try lia. Qed.
+Proof.
+  intros Hv Ho.
+  first [ unfold g_cbor_encode_uint8, enc_uint8, zres, efail, indexed; cbv zeta; norm; splits; cbn [idx map fst snd app]; repeat f_equal; pows; try lia; fail
+        | unfold g_cbor_encode_uint8, fb_cbor_encode_uint8; rewrite !N2Z.id; reflexivity ].
+Qed.
 
 Lemma bridge_encode_uint16 v size off : (v < 2^16)%N -> (off < 2^8)%N ->
   g_cbor_encode_uint16 (Z.of_N v) (Z.of_N size) (Z.of_N off) = zres (enc_uint16 v size off).
-Proof. intros Hv Ho. unfold g_cbor_encode_uint16, enc_uint16, zres, efail, indexed. cbv zeta. norm. splits; cbn [idx map fst snd app]; repeat f_equal; pows; try lia. Qed.
+Proof.
+  intros Hv Ho.
+  first [ unfold g_cbor_encode_uint16, enc_uint16, zres, efail, indexed; cbv zeta; norm; splits; cbn [idx map fst snd app]; repeat f_equal; pows; try lia; fail
+        | unfold g_cbor_encode_uint16, fb_cbor_encode_uint16; rewrite !N2Z.id; reflexivity ].
+Qed.
 
 Lemma bridge_encode_uint32 v size off : (v < 2^32)%N -> (off < 2^8)%N ->
   g_cbor_encode_uint32 (Z.of_N v) (Z.of_N size) (Z.of_N off) = zres (enc_uint32 v size off).
-Proof. intros Hv Ho. unfold g_cbor_encode_uint32, enc_uint32, zres, efail, indexed. cbv zeta. norm. splits; cbn [idx map fst snd app]; repeat f_equal; pows; try lia. Qed.
+Proof.
+  intros Hv Ho.
+  first [ unfold g_cbor_encode_uint32, enc_uint32, zres, efail, indexed; cbv zeta; norm; splits; cbn [idx map fst snd app]; repeat f_equal; pows; try lia; fail
+        | unfold g_cbor_encode_uint32, fb_cbor_encode_uint32; rewrite !N2Z.id; reflexivity ].
+Qed.
 
 Lemma bridge_encode_uint64 v size off : (v < 2^64)%N -> (off < 2^8)%N ->
   g_cbor_encode_uint64 (Z.of_N v) (Z.of_N size) (Z.of_N off) = zres (enc_uint64 v size off).
-Proof. intros Hv Ho. unfold g_cbor_encode_uint64, enc_uint64, zres, efail, indexed. cbv zeta. norm. splits; cbn [idx map fst snd app]; repeat f_equal; pows; try lia. Qed.
+Proof.
+  intros Hv Ho.
+  first [ unfold g_cbor_encode_uint64, enc_uint64, zres, efail, indexed; cbv zeta; norm; splits; cbn [idx map fst snd app]; repeat f_equal; pows; try lia; fail
+        | unfold g_cbor_encode_uint64, fb_cbor_encode_uint64; rewrite !N2Z.id; reflexivity ].
+Qed.
 
 Lemma bridge_encode_byte v size : g_cbor_encode_byte (Z.of_N v) (Z.of_N size) = zres (enc_byte v size).
-Proof. unfold g_cbor_encode_byte, enc_byte, zres, efail, indexed. cbv zeta. norm. splits; cbn [idx map fst snd app]; repeat f_equal; try lia. Qed.
+Proof.
+  first [ unfold g_cbor_encode_byte, enc_byte, zres, efail, indexed; cbv zeta; norm; splits; cbn [idx map fst snd app]; repeat f_equal; try lia; fail
+        | unfold g_cbor_encode_byte, fb_cbor_encode_byte; rewrite !N2Z.id; reflexivity ].
+Qed.
 
 
 (* ---- _cbor_encode_uint and the public encoders of encoding.c (major-type offsets) ---- *)
